@@ -312,6 +312,9 @@ def run(pid, tier="quick", seed=0, nproc=None, cap_s=None, confirm=True):
     if missing and not capped and rc == 0:
         print("HARNESS-ERROR: vacuous run, corner classes never hit: %s" % missing)
         return 2
+    soft_missing = [c for c in getattr(chk, "SOFT_CLASSES", []) if tot["classes"].get(c, 0) == 0]
+    if soft_missing:
+        print("NOTE: implementation-dependent corner classes not reached in this run: %s" % soft_missing)
 
     wall = time.time() - t0
     level = chk.LEVEL
@@ -325,6 +328,7 @@ def run(pid, tier="quick", seed=0, nproc=None, cap_s=None, confirm=True):
         "samples": samples,
         "exhaustive": not capped,
         "bounds": chk.bounds(tier, seed) if hasattr(chk, "bounds") else {},
+        "soft_classes_not_reached": [c for c in getattr(chk, "SOFT_CLASSES", []) if tot["classes"].get(c, 0) == 0],
         "violations_total": tot["nviol"],
         "known_finding_hits": {k: len(v) for k, v in known_hit.items()},
         "workers": nproc,
